@@ -1197,7 +1197,8 @@ def _replay_flatten(c):
     from kawin.GenericModel import GenericModel, Coupler
 
     def mk(shp):
-        return [0.5 if not s else (np.arange(int(np.prod(s)), dtype=float) + 1.5).reshape(tuple(s)) for s in shp]
+        # distinct numbers everywhere, so that a value read from another slot is seen
+        return [0.5 + 7 * i if not s else (np.arange(int(np.prod(s)), dtype=float) + 1.5 + 100 * i).reshape(tuple(s)) for i, s in enumerate(shp)]
 
     def model(ravel):
         m = GenericModel()
